@@ -30,9 +30,12 @@ def prfplus(prf_id, key, seed, n):
     return out[:n]
 
 
-def ike_keys(prf_id, integ_id, encr_bits, ni, nr, spi_i, spi_r, secret, old_sk_d=None):
-    """{SK_d | SK_ai | SK_ar | SK_ei | SK_er | SK_pi | SK_pr} = prf+(SKEYSEED, Ni | Nr | SPIi | SPIr)."""
-    skeyseed = prf(prf_id, ni + nr, secret) if old_sk_d is None else prf(prf_id, old_sk_d, secret + ni + nr)
+def ike_keys(prf_id, integ_id, encr_bits, ni, nr, spi_i, spi_r, secret, old_sk_d=None, old_prf_id=None):
+    """{SK_d | SK_ai | SK_ar | SK_ei | SK_er | SK_pi | SK_pr} = prf+(SKEYSEED, Ni | Nr | SPIi | SPIr).  For a rekeyed IKE_SA SKEYSEED is
+    computed with the prf of the OLD IKE_SA (RFC 7296 2.18), everything else with the new one."""
+    if old_sk_d is not None and old_prf_id is None:
+        raise ValueError('the keys of a rekeyed IKE_SA need the prf of the old IKE_SA')
+    skeyseed = prf(prf_id, ni + nr, secret) if old_sk_d is None else prf(old_prf_id, old_sk_d, secret + ni + nr)
     pl, il, el = prf_len(prf_id), INTEG_KEYLEN[integ_id], encr_bits // 8
     km = prfplus(prf_id, skeyseed, ni + nr + spi_i + spi_r, 3 * pl + 2 * il + 2 * el)
     names = [('sk_d', pl), ('sk_ai', il), ('sk_ar', il), ('sk_ei', el), ('sk_er', el), ('sk_pi', pl), ('sk_pr', pl)]
